@@ -33,6 +33,26 @@ type GSCall struct {
 	Tag    string `json:"tag"`
 	Method string `json:"method"` // Hello | Auth | List | Order
 	Code   int    `json:"grpc_code"`
+	// postprocessor assert/response of the call (docs: "Upon assertion, further scenario execution is dropped"):
+	// status_code (0 = not asserted; compared with the HTTP-style code of the status received) and payload
+	// ("" = not asserted | "present": a word the answer holds | "missing": a word it does not hold)
+	AssertStatus  int    `json:"assert_status_code,omitempty"`
+	AssertPayload string `json:"assert_payload,omitempty"`
+}
+
+// words the scripted answers of the four methods hold
+var gsAnswerWord = map[string]string{"Hello": "hword", "Auth": "tword", "List": "7777", "Order": "8888"}
+
+func (cl GSCall) hasAssert() bool { return cl.AssertStatus != 0 || cl.AssertPayload != "" }
+
+// rejects: the call's assertion does not hold for the answer the target gives it. The call was made and answered all
+// the same: its step is an executed step, and the last one of its invocation.
+func (cl GSCall) rejects() bool {
+	if cl.AssertStatus != 0 && cl.AssertStatus != docCode(cl.Code) {
+		return true
+	}
+	// a non-OK status comes without a response message: no word can be found in it
+	return cl.AssertPayload == "missing" || (cl.AssertPayload == "present" && cl.Code != 0)
 }
 
 type GSStep struct {
@@ -64,6 +84,32 @@ func genGS(t *rapid.T) GSCase {
 			Code:   rapid.SampledFrom([]int{0, 0, 0, 0, 5, 14, 16}).Draw(t, "code"),
 		})
 	}
+	// half of the descriptions give their calls assert/response postprocessors, holding or not for what the target
+	// answers: a rejected step has been executed (the call was answered), the rest of its invocation is not
+	if rapid.Bool().Draw(t, "postprocessors") {
+		for i := range c.Calls {
+			cl := &c.Calls[i]
+			real := docCode(cl.Code)
+			switch rapid.SampledFrom([]string{"none", "none", "status_holds", "status_fails", "payload_holds", "payload_fails", "both_hold"}).Draw(t, "assert") {
+			case "status_holds":
+				cl.AssertStatus = real
+			case "status_fails":
+				var other []int
+				for _, v := range []int{200, 400, 404, 500, 503, 401} {
+					if v != real {
+						other = append(other, v)
+					}
+				}
+				cl.AssertStatus = rapid.SampledFrom(other).Draw(t, "assertStatus")
+			case "payload_holds":
+				cl.AssertPayload = "present"
+			case "payload_fails":
+				cl.AssertPayload = "missing"
+			case "both_hold":
+				cl.AssertStatus, cl.AssertPayload = real, "present"
+			}
+		}
+	}
 	ns := rapid.IntRange(2, 4).Draw(t, "scenarios")
 	names := rapid.SliceOfNDistinct(rapid.StringMatching(`[a-z][a-z0-9_]{0,6}`), ns, ns, func(s string) string { return s }).Draw(t, "names")
 	total := 0
@@ -75,7 +121,14 @@ func genGS(t *rapid.T) GSCase {
 			sc.Steps = append(sc.Steps, GSStep{Call: rapid.IntRange(0, nc-1).Draw(t, "call"), Count: rapid.SampledFrom([]int{1, 1, 1, 2, 3}).Draw(t, "count")})
 		}
 		at := rapid.IntRange(0, n).Draw(t, "markerAt")
-		sc.Steps = append(sc.Steps[:at], append([]GSStep{{Call: -1, Count: 1}}, sc.Steps[at:]...)...)
+		// the marker must run in every invocation: never behind a step whose assertion ends the invocation
+		for j := 0; j < at; j++ {
+			if c.Calls[sc.Steps[j].Call].rejects() {
+				at = j
+				break
+			}
+		}
+		sc.Steps = append(sc.Steps[:at:at], append([]GSStep{{Call: -1, Count: 1}}, sc.Steps[at:]...)...)
 		c.Scens = append(c.Scens, sc)
 		total += sc.Weight
 	}
@@ -105,6 +158,18 @@ func (c GSCase) yaml() string {
 	}
 	for i, cl := range c.Calls {
 		call(fmt.Sprintf("c%d", i), cl.Tag, cl.Method)
+		if cl.hasAssert() {
+			sb.WriteString("    postprocessors:\n      - type: assert/response\n")
+			if cl.AssertStatus != 0 {
+				fmt.Fprintf(&sb, "        status_code: %d\n", cl.AssertStatus)
+			}
+			switch cl.AssertPayload {
+			case "present":
+				fmt.Fprintf(&sb, "        payload: [%s]\n", strconv.Quote(gsAnswerWord[cl.Method]))
+			case "missing":
+				sb.WriteString("        payload: [\"nosuchword\"]\n")
+			}
+		}
 	}
 	for i, sc := range c.Scens {
 		call(fmt.Sprintf("m%d", i), sc.MarkTag, "Hello")
@@ -127,7 +192,8 @@ func (c GSCase) yaml() string {
 	return sb.String()
 }
 
-// flat: the call names of one invocation of scenario i, in order
+// flat: the call names of one invocation of scenario i, in order: its request list up to and including the first step
+// whose assertion does not hold
 func (c GSCase) flat(i int) []string {
 	var out []string
 	for _, st := range c.Scens[i].Steps {
@@ -137,6 +203,9 @@ func (c GSCase) flat(i int) []string {
 		}
 		for k := 0; k < max(1, st.Count); k++ {
 			out = append(out, name)
+			if st.Call >= 0 && c.Calls[st.Call].rejects() {
+				return out
+			}
 		}
 	}
 	return out
@@ -167,6 +236,11 @@ func checkGS(c GSCase, o *vf.Obs) error {
 			}
 		}
 	}
+	for i := range c.Scens {
+		if !strings.Contains(" "+strings.Join(c.flat(i), " ")+" ", fmt.Sprintf(" m%d ", i)) {
+			return fmt.Errorf("harness: the marker call of scenario %d is behind a step that ends the invocation", i)
+		}
+	}
 	tg, mu := target.SharedGRPC()
 	mu.Lock()
 	defer mu.Unlock()
@@ -177,7 +251,7 @@ func checkGS(c GSCase, o *vf.Obs) error {
 		return ""
 	}
 	tg.ResetScript(func(call *target.GCall) target.GResp {
-		r := target.GResp{Code: codes.OK, Hello: "h", Token: "t", UserID: 1, Items: []int64{1}, OrderID: 1}
+		r := target.GResp{Code: codes.OK, Hello: gsAnswerWord["Hello"], Token: gsAnswerWord["Auth"], UserID: 1, Items: []int64{7777}, OrderID: 8888}
 		if s := stepOf(call); strings.HasPrefix(s, "c") {
 			if k, err := strconv.Atoi(s[1:]); err == nil && k >= 0 && k < len(c.Calls) {
 				r.Code = codes.Code(c.Calls[k].Code)
@@ -329,17 +403,31 @@ func checkGS(c GSCase, o *vf.Obs) error {
 	}
 
 	// ---- classes ----
-	users := map[int]map[int]bool{} // shared call -> scenarios that were invoked and list it
-	for i, sc := range c.Scens {
+	users := map[int]map[int]bool{} // shared call -> scenarios that were invoked and ran it
+	var rejected []GSCall           // calls whose assertion ended an invocation
+	cutShort := false               // ... with steps of the request list left unexecuted
+	for i := range c.Scens {
 		if invs[i] == 0 {
 			continue
 		}
-		for _, st := range sc.Steps {
-			if st.Call >= 0 {
-				if users[st.Call] == nil {
-					users[st.Call] = map[int]bool{}
+		fl := c.flat(i)
+		for _, s := range fl {
+			if s[0] == 'c' {
+				k, _ := strconv.Atoi(s[1:])
+				if users[k] == nil {
+					users[k] = map[int]bool{}
 				}
-				users[st.Call][i] = true
+				users[k][i] = true
+			}
+		}
+		if last := fl[len(fl)-1]; last[0] == 'c' {
+			if k, _ := strconv.Atoi(last[1:]); c.Calls[k].rejects() {
+				rejected = append(rejected, c.Calls[k])
+				full := 0
+				for _, st := range c.Scens[i].Steps {
+					full += max(1, st.Count)
+				}
+				cutShort = cutShort || len(fl) < full
 			}
 		}
 	}
@@ -365,7 +453,27 @@ func checkGS(c GSCase, o *vf.Obs) error {
 	o.ClassIf(c.Instances >= 2, "instances_ge_2")
 	o.ClassIf(c.Instances >= 2 && sharedShot, "instances_ge_2_with_shared_call")
 	o.ClassIf(nonOK, "step_with_non_ok_status")
-	if sharedShot && invoked >= 2 {
+	holds := false
+	for k := range users {
+		holds = holds || (c.Calls[k].hasAssert() && !c.Calls[k].rejects())
+	}
+	o.ClassIf(holds, "step_with_assertion_that_holds")
+	o.ClassIf(len(rejected) > 0, "step_rejected_by_postprocessor")
+	o.ClassIf(cutShort, "invocation_cut_short_by_postprocessor")
+	var rejOK, rejNonOK, rejStatus, rejPayload bool
+	for _, cl := range rejected {
+		byStatus := cl.AssertStatus != 0 && cl.AssertStatus != docCode(cl.Code)
+		rejOK = rejOK || cl.Code == 0
+		rejNonOK = rejNonOK || cl.Code != 0
+		rejStatus = rejStatus || byStatus
+		rejPayload = rejPayload || !byStatus
+	}
+	o.ClassIf(rejOK, "rejected_step_answered_ok")
+	o.ClassIf(rejNonOK, "rejected_step_answered_non_ok")
+	o.ClassIf(rejStatus, "rejected_by_status_code_assertion")
+	o.ClassIf(rejPayload, "rejected_by_payload_assertion")
+	o.ClassIf(len(rejected) > 0 && c.Instances >= 2, "instances_ge_2_with_rejected_step")
+	if (sharedShot && invoked >= 2) || len(rejected) > 0 {
 		o.NonTrivial()
 	}
 	o.Note("invocations", invs)
